@@ -177,3 +177,11 @@ package schema
 //@   ensures implies(result == nil && len(d.rbs) == 0 && 1 <= d.fd && d.fd <= 18, fdtab[d.fd].Start <= parse_float(s) && parse_float(s) <= fdtab[d.fd].End)
 //@   loop 0 invariant forall(k, 0, loopidx+1, !(d.rbs[k].Start <= parse_float(s) && parse_float(s) <= d.rbs[k].End))
 //@   loop 0 invariant iff(loopidx >= 0, err != nil)
+//@ func (Node).Module
+//@   nopanic
+//@   ensures result == node_module(self)
+//@ func (Node).Name
+//@   nopanic
+//@ func (ListEntry).Keys
+//@   nopanic
+//@   ensures len(result) >= 1
